@@ -372,7 +372,7 @@ func genIndependent(g *core.Gen) {
 }
 
 func genPools(g *core.Gen) {
-	for c := 0; c < g.N(300, 1500); c++ {
+	for c := 0; c < g.N(240, 1500); c++ {
 		world := 0
 		if g.R.Chance(1, 4) {
 			world = 1
@@ -934,7 +934,7 @@ func genTwo(g *core.Gen) {
 
 // genPar: eight complete cases per line, run concurrently on separate chains.
 func genPar(g *core.Gen) {
-	for c := 0; c < g.N(6, 40); c++ {
+	for c := 0; c < g.N(4, 40); c++ {
 		var parts []string
 		for i := 0; i < 8; i++ {
 			pg := newPoolGen(g.R, i%2)
@@ -978,7 +978,7 @@ func joinStrings(xs []string, sep string) string {
 // varint of the block grows from 1 to 3 bytes at 253 (coinbase included).
 func genManyTxs(g *core.Gen) {
 	for _, total := range []int{251, 252, 253} {
-		if !g.Thorough() && total == 251 && g.R.Bool() {
+		if !g.Thorough() && total == 251 {
 			continue
 		}
 		pg := newPoolGen(g.R, 0)
@@ -1080,7 +1080,7 @@ func genMaturityEdge(g *core.Gen) {
 // fills the block to 4 000 000 -4 / +0 / +4 weight units: the final self-check
 // is the only thing between the selection and an oversized block.
 func genConsensusWeight(g *core.Gen) {
-	for c := 0; c < g.N(3, 12); c++ {
+	for c := 0; c < g.N(1, 12); c++ {
 		pg := newPoolGen(g.R, 0)
 		pg.s.maxW = 4100000
 		pg.s.addr = false
